@@ -86,7 +86,7 @@ impl EncCfg {
         EncCfg {
             channels: if rng.chance(1, 2) { rng.range(1, 2) as u8 } else { rng.range(1, 8) as u8 },
             bps,
-            rate: *rng.pick(&[0u32, 1, 8000, 11000, 12345, 44100, 44110, 48000, 65535, 65536, 96000, 192000, 655350, 700001, 1048575]),
+            rate: *rng.pick(&[0u32, 1, 8000, 11000, 11025, 12345, 44100, 44110, 48000, 65535, 65536, 96000, 192000, 255000, 655350, 655360, 700001, 768000, 1048570, 1048575]),
             block_size: *rng.pick(&[16u16, 17, 31, 32, 64, 192, 255, 256, 257, 576, 1024, 1152, 4096, 4608]),
             max_lpc: *rng.pick(&[None, Some(1), Some(2), Some(8), Some(12), Some(31), Some(32)]),
             max_part: rng.below(16) as u32,
